@@ -324,6 +324,7 @@ def check_c04(out, tier):
     run_and_judge(out, general_cases(rnd, 220 * k, "c04g", ors=True), [], mine, crash_is_mine=True)
     run_and_judge(out, adversarial_cases(rnd, 120 * k, "c04a"), [], mine, crash_is_mine=True)
     run_and_judge(out, featureless_cases(rnd, 60 * k, "c04f"), [], mine, crash_is_mine=True)
+    run_and_judge(out, tied_reference_cases(rnd, 40 * k, "c04t"), [], mine, crash_is_mine=True)
     opts = general_cases(rnd, 140 * k, "c04o", ors=True)
     for c in opts:
         c["cfg"].update(minIri=rnd.random() < .5, examples=rnd.choice(["", "shape", "cons", "all"]),
@@ -371,6 +372,33 @@ def adversarial_cases(rnd, n, prefix):
             cfg["mode"] = "classes"
             cfg["targets"] = classes[:1] + [M.EX + "Absent"]
         cfg["format"] = rnd.choice(["shexc", "shacl"])
+        cases.append(gen.case("%s%d" % (prefix, i), T, **cfg))
+    return cases
+
+
+def tied_reference_cases(rnd, n, prefix):
+    """a property whose values are IRIs for some instances and blank nodes for others - so that a threshold above one half drops
+    both plain node kinds - while every value belongs to the same two (or three) shapes: the shape references survive and are
+    exactly tied"""
+    cases = []
+    for i in range(n):
+        ns = rnd.choice([2, 4, 4, 6])
+        S = [M.iri(M.EX + "s%d" % j) for j in range(ns)]
+        objs = [M.iri(M.EX + "o%d" % j) if j < ns // 2 else M.bnode("o%d" % j) for j in range(ns)]
+        classes = [M.EX + "O%d" % j for j in range(rnd.randint(2, 3))]
+        T = [(x, M.RDF_TYPE, M.iri(M.EX + "S")) for x in S]
+        for o in objs:
+            for c in classes:
+                T.append((o, M.RDF_TYPE, M.iri(c)))
+        for x, o in zip(S, objs):
+            T.append((x, M.EX + "p", o))
+        if rnd.random() < .5:
+            T.append((S[0], M.EX + "p", M.lit("also a literal")))
+        rnd.shuffle(T)
+        cfg = gen.switches(rnd, ors=rnd.random() < .3)
+        cfg.update(thr=rnd.choice([[51, 100], [3, 5], [2, 3], [1, 2], [0, 1]]), format=rnd.choice(["shexc", "shexc", "shacl"]))
+        if cfg["format"] == "shacl":
+            cfg["disableOr"], cfg["redundantOr"] = True, False
         cases.append(gen.case("%s%d" % (prefix, i), T, **cfg))
     return cases
 
